@@ -9,11 +9,11 @@ CLAIMED = {
          'Exhaustive within the small scope (all ordered pairs of step kinds, each also after `..`, quick; triples and trailing functions, thorough), both decode modes; sampled beyond it (direction B).', '6 C01'),
  'C02': ('TLA+ parser model (Peg over the grammar generated from jsonpath.peg + the 46 actions) with invariants Documented/StackOK and CmpNormalize liveness; token soup and rendered sentences enumerated by TLC and parsed by the real library in crash-isolated workers; random/mutated/stress strings recorded and validated by Trace_Parse',
          'Shape of every Parse outcome, no panic, no process death, no call longer than 3 s, for all enumerated and sampled strings up to 256 characters, three configurations.', '6 C02'),
- 'C03': ('TLC-enumerated cases (Gen_Select, Gen_Slice magnitudes) replayed; response shape and error class checked under recover in crash-isolated workers; recorded random evaluations incl. numbers beyond float64/int64',
+ 'C03': ('TLC-enumerated cases (Gen_Select, Gen_Slice magnitudes) replayed; response shape and error class checked under recover in crash-isolated workers; recorded random evaluations incl. numbers beyond float64/int64; the filter atoms of Gen_Filter (every operator x operand form x order, deep-equality scope) with a totality-only oracle; documents assembled from shared parts',
          'Every enumerated/sampled (path, document) returns (non-empty, nil) xor (nil, documented runtime error); FunctionFailed only when a model function failed.', '6 C03'),
- 'C04': ('TLC-enumerated cases replayed with a structural snapshot of the document before/after every call; same assertion on every recorded random evaluation',
+ 'C04': ('TLC-enumerated cases replayed with a structural snapshot of the document before/after every call; same assertion on every recorded random evaluation; the document of the previous call re-checked before and after every call; documents holding typed Go containers (Gen_Opaque) in plain and accessor mode',
          'Snapshot comparison on every case, success or failure, both decode modes, also in accessor mode without Set.', '6 C04'),
- 'C05': ('TLA+ L2 models FilterProtoHist (heap of list cells persists across calls: TreeImmutable, CallIsPure) and Conc with one goroutine (ResultsPrivate, BufferPrivacy); TLC-enumerated histories (Gen_History: one parsed function x sequences of call/scribble/unrelated over documents that flip filter outcomes and cross slice-growth boundaries) replayed on ONE real parsed function',
+ 'C05': ('TLA+ L2 models FilterProtoHist (heap of list cells persists across calls: TreeImmutable, CallIsPure) and Conc with one goroutine (ResultsPrivate, BufferPrivacy); TLC-enumerated histories (Gen_History: one parsed function x sequences of call/scribble/unrelated over documents that flip filter outcomes and cross slice-growth boundaries) replayed on ONE real parsed function, the same document object evaluated again when the history names it again',
          'Every call compared with the specification response and with a fresh Retrieve; every earlier result slice re-read after every later operation; all histories of <= 3 operations x 22 kill-query functions x 7 documents (quick).', '6 C05'),
  'C06': ('TLA+ Conc (goroutines x critical sections: mutex, pool get/put, tree access) model-checked for MutualExclusion / BufferPrivacy / ResultsPrivate / NoRace / termination over all interleavings of 2-3 goroutines; Sched.tla (Conc at the granularity of recorded hook events) generates release schedules that the gate scheduler forces on the real library (hooks, build tag verif); free-running goroutines under the Go race detector with results compared to sequential results; recorded hook traces validated by Trace_Conc',
          'Interleavings at critical-section granularity are enumerated/sampled by TLC and forced; inside a section the race detector is relied upon; schedules of the Go scheduler are sampled, not enumerated.', '6 C06'),
@@ -21,14 +21,14 @@ CLAIMED = {
          'Every evaluation must return the specification sequence; >= 64 evaluations per key-set size are counted in the evidence.', '6 C07'),
  'C08': ('TLA+ law Compose model-checked on Select; the same law checked oracle-free on the real library (three retrievals per split, union and recursive-descent corollaries)',
          'Every split point of every enumerated path; Q restricted as the property states.', '6 C08'),
- 'C09': ('TLA+ FilterProto (the value-list protocol refines per-member Boolean logic, 38k states quick / 6.8M thorough) and the laws LawBoolean/LawNe/LawMirror/LawLe model-checked on Holds; every enumerated (container, query) checked on the real library: intersection/union/complement/mirror/le-is-lt-or-eq relations between real selections, and the selection against Holds',
+ 'C09': ('TLA+ FilterProto (the value-list protocol refines per-member Boolean logic, 38k states quick / 6.8M thorough) and the laws LawBoolean/LawNe/LawMirror/LawLe model-checked on Holds; every enumerated (container, query) checked on the real library: intersection/union/complement/mirror/le-is-lt-or-eq relations between real selections, and the selection against Holds, on fresh parsed functions and on ones used before on another document; deep-equality scope (containers and zero values on both sides of path == path)',
          'All atoms (six operators x operand kinds x orders, literals of every type, regex, existence) and all pairs of 15 representative atoms over containers of <= 2 distinct members (arrays and objects).', '6 C09'),
- 'C10': ('TLA+ Holds is type-strict (LawTypeStrict model-checked); every enumerated comparison filter evaluated on the document decoded as float64, json.Number and json.Number with two other spellings: same members selected, equal to the specification',
+ 'C10': ('TLA+ Holds is type-strict (LawTypeStrict model-checked); every enumerated comparison filter evaluated on the document decoded as float64, json.Number and json.Number with two other spellings: same members selected, equal to the specification; deep-equality scope; decode-mode parity on recorded random evaluations (Trace_Eval)',
          'All comparison atoms over members of every JSON type.', '6 C10'),
  'C11': ('TLA+ Slice: mechanism (two implementations, normalise, guarded loop) = Python definition, in range, monotone, for all start/end/step in {omitted} U [-7..7] U five boundary magnitudes x lengths 0..6; every slice and index replayed on the real library',
          'Exhaustive over the stated space (64 974 states) in the quick tier.', '6 C11'),
- 'C12': ('TLC-enumerated cases (paths with trailing and in-filter functions) evaluated once per accessor mode with identical recording function sets', 'Parity of length, Get() values, errors and function call logs on every enumerated case.', '6 C12'),
- 'C13': ('TLA+ locations (Select.loc, invariant LocsExact) replayed: Set a sentinel through every accessor on a fresh copy and diff the document against Put(doc, loc, v); Get liveness; Set == nil exactly for non-locations',
+ 'C12': ('TLC-enumerated cases (paths with trailing and in-filter functions) evaluated once per accessor mode with identical recording function sets; Gen_Config (the Config object as a state machine: Set* calls in every order, before and after Parse) replayed on real Configs', 'Parity of length, Get() values, errors and function call logs on every enumerated case.', '6 C12'),
+ 'C13': ('TLA+ locations (Select.loc, invariant LocsExact) replayed: Set a sentinel through every accessor on a fresh copy and diff the document against Put(doc, loc, v); Get liveness; Set == nil exactly for non-locations (also after functions); Gen_AccHist: the accessors of one retrieval as a state machine (Set / direct update / unrelated accessor-mode retrievals), every accessor read after every step',
          'Every result index of every enumerated successful case.', '6 C13'),
  'C14': ('TLA+ CallLog (Stages) compared with the recorded argument logs of the harness functions for every enumerated path x function sequence', 'Per function: every selected value once, in order; aggregates once with all values.', '6 C14'),
  'C15': ('TLA+ Failure set (deepest step, missing member preferred) compared with the real error type, path text, expected kind and found type; also on recorded random evaluations via Trace_Eval',
@@ -39,7 +39,7 @@ CLAIMED = {
          'Every enumerated and sampled string.', '6 C17'),
  'C18': ('TLA+ Render under 9 spelling vectors; model-level RoundTrip (Gen_RoundTrip: ParseModel(Render(a, sp)) = a for all 64 vectors); each enumerated case evaluated under every spelling and compared with the canonical one',
          'Values equal, or errors of the same type at the same step.', '6 C18'),
- 'C19': ('TLA+ Conc (one goroutine): ResidueFree -- no Parse starts on the residue of an earlier one, also after a panic half-way; TLC-enumerated Parse histories (Gen_ParseHist) over a pool of (path, config) pairs aborting at every action, also inside filter operands; each outcome compared with ParseModel/Response and with the same call made first in a fresh process; Config modified after Parse',
+ 'C19': ('TLA+ Conc (one goroutine): ResidueFree -- no Parse starts on the residue of an earlier one, also after a panic half-way; TLC-enumerated Parse histories (Gen_ParseHist) over a pool of (path, config) pairs aborting at every action, also inside filter operands; each outcome compared with ParseModel/Response and with the same call made first in a fresh process; Config modified after Parse; Gen_Config state machine replayed on real Configs',
          'All histories of <= 3 calls over 27 (path, config) pairs (quick).', '6 C19'),
  'C20': ('TLA+ opaque values in Select/Holds (Gen_Opaque: leaves replaced by values of 20 Go types chosen by TLC) replayed with the exact-response, shape, snapshot, accessor-parity, call-log and error oracles',
          'All one-step paths x all types, two-step paths x six representative types (quick).', '6 C20'),
